@@ -235,6 +235,19 @@ func Execute(s Seq) (out Real) {
 	ws := new(restful.WebService)
 	ws.Path("/r")
 	ran := false
+	viaHandle := len(s.Ops)%3 == 2 // every third sequence: a plain http.Handler registered with HandleWithFilter makes the calls
+	if viaHandle {
+		c.HandleWithFilter("/r/x", http.HandlerFunc(func(w http.ResponseWriter, r *http.Request) {
+			ran = true
+			// HandleWithFilter hands the handler the Response the container filters see, as its
+			// http.ResponseWriter; a handler that finds something else can only wrap it itself
+			resp, ok := w.(*restful.Response)
+			if !ok {
+				resp = restful.NewResponse(w)
+			}
+			runOps(resp, spy, s.Ops, &out)
+		}))
+	}
 	ws.Route(ws.GET("/x").To(func(req *restful.Request, resp *restful.Response) {
 		ran = true
 		runOps(resp, spy, s.Ops, &out)
@@ -246,7 +259,7 @@ func Execute(s Seq) (out Real) {
 		chain.ProcessFilter(req, resp)
 		out.Final = &[2]int{resp.StatusCode(), resp.ContentLength()}
 	})
-	if len(s.Ops)%2 == 1 {
+	if len(s.Ops)%2 == 1 && !viaHandle {
 		// every other sequence: a net/http middleware adapted with HttpMiddlewareHandlerToFilter sits between
 		// the observing filter and the route function (it only passes on); what the observer reads
 		// afterwards must still be what the handler did
@@ -254,12 +267,18 @@ func Execute(s Seq) (out Real) {
 			return http.HandlerFunc(func(w http.ResponseWriter, r *http.Request) { next.ServeHTTP(w, r) })
 		}))
 	}
-	c.Add(ws)
+	if !viaHandle {
+		c.Add(ws)
+	}
 	req := &http.Request{Method: "GET", URL: &url.URL{Path: "/r/x"}, Header: http.Header{}, Body: http.NoBody}
 	if coding != "" {
 		req.Header.Set("Accept-Encoding", coding)
 	}
-	c.Dispatch(bottom, req)
+	if viaHandle {
+		c.ServeMux.ServeHTTP(bottom, req)
+	} else {
+		c.Dispatch(bottom, req)
+	}
 	if !ran {
 		panic("harness: the route function did not run")
 	}
